@@ -11,6 +11,7 @@ The real methods of tenpy.models.lattice run on these; the specification is the 
 lattice coordinates (catalogue/lattices.py), which only reads the data ``lat.order`` and the boundary conditions.
 """
 import itertools
+import json
 
 import numpy as np
 
@@ -19,14 +20,16 @@ from catalogue import lattices as Lt
 PROPERTY = 'C19'
 LEVEL = 'model_checking'
 BOUNDS = {
-    'quick': 'Chain/Ladder L<=4, Square/Triangular/Honeycomb/Kagome up to 3x3 (Kagome 2x2..3x2) unit cells, every named ordering '
-             "of each class plus custom ('standard', snake, priority) and ('grouped', ..) orders, bc open/periodic/shift +-1, "
-             'bc_MPS finite/infinite; IrregularLattice (removed + added site), HelicalLattice, MultiSpeciesLattice (2 species) on '
-             'small regular lattices; index maps: ALL integers i (unbounded unit-cell offset); couplings: ALL displacements along '
-             'periodic directions (unbounded), |dx| <= L along open directions; multi-couplings: 3 operators, second one with '
-             'symbolic displacement, third from a fixed list; strengths symbolic (at most 2 may vanish); pairs/find_coupling_pairs/'
-             'distance/position: PLAIN ENUMERATION with float tolerance 1e-9 (no solver involved)',
-    'thorough': 'same with sizes up to 4x4 unit cells and the full cross product of orderings and boundary conditions',
+    'quick': 'Chain 3-4, Ladder 3, Square 2x3 / 3x3, Triangular 3x2, Honeycomb 2x2, Kagome 2x2 unit cells; every named ordering of each '
+             "class plus one custom ('standard', snake, priority) / ('grouped', ..) order; bc open / periodic / shift +-1, bc_MPS finite / "
+             'infinite; 6 IrregularLattice (removed and added sites), 3 HelicalLattice, 3 MultiSpeciesLattice configurations; index maps: '
+             'ALL integers i = q*N + r and all x0 (unbounded unit-cell offset); couplings: ALL displacements along x when periodic '
+             '(unbounded symbolic integer), |dx_a| <= L_a (+1 if periodic) otherwise, all (u1, u2); multi-couplings: 3 operators, second '
+             'one with symbolic displacement (|d| <= 1-2 along bounded directions), third from a fixed list, 1-6 (u0,u1,u2) triples; '
+             'strength cases: bounded displacements, symbolic strengths of which at most 2 may vanish; '
+             'pairs / find_coupling_pairs / distance / position / count_neighbors: PLAIN ENUMERATION with float tolerance 1e-9 (no solver)',
+    'thorough': 'sizes up to 4x4 unit cells (Chain 5, Kagome 3x2), displacements unbounded along EVERY periodic direction, full cross product '
+                'of orderings and boundary conditions for the first size of each class',
 }
 OUTSIDE = ('machine-word overflow of indices; dtype of freshly allocated index containers; plotting; HDF5 (C17); '
            'IrregularLattice.mps2lat_values (not defined for lattices with holes: raises AttributeError; the masked variant is checked)')
@@ -44,15 +47,23 @@ def setup_symbolic(case):
     stubs.facade_for(M)
 
 
+_LATS = {}
+
+
 def _setup(ctx, cfg, sym=True):
     """sym: symbolic integers will be written into index arrays (mps2lat_idx with offset, couplings with symbolic
     displacement): the index arrays are prepared as object arrays.  sym=False: indices stay concrete int arrays (they
     index arrays of symbolic *values* / strengths)."""
-    lat = Lt.build_lattice(cfg)
-    ref = Lt.Ref(lat, cfg)
-    if ctx.symbolic and sym:
-        Lt.symbolic_ready(lat)
-    return lat, ref
+    key = (json.dumps(cfg, sort_keys=True), bool(ctx.symbolic and sym))
+    if key not in _LATS:
+        # built once per process and reused on every path: none of the methods under check may modify the lattice
+        # (idx_case checks that the order is unchanged)
+        lat = Lt.build_lattice(cfg)
+        ref = Lt.Ref(lat, cfg)
+        if ctx.symbolic and sym:
+            Lt.symbolic_ready(lat)
+        _LATS[key] = (lat, ref)
+    return _LATS[key]
 
 
 def _ilist(a):
@@ -91,11 +102,16 @@ def idx_case(ctx, cfg):
     # result is a copy: writing into it must not change the lattice
     li[...] = -7
     ctx.prove(all(tuple(int(v) for v in a) == b for a, b in zip(lat.order, ref.order)), 'mps2lat_idx returns a copy of the order row')
-    # --- lattice index -> MPS index -> lattice index, for ALL x0 (infinite)
+
+
+def latidx_case(ctx, cfg):
+    """lattice index -> MPS index -> lattice index, for ALL x0 (infinite) / all x0 in range (finite)"""
+    lat, ref = _setup(ctx, cfg)
+    N, dim, Ls = ref.N, ref.dim, ref.Ls
     x = [ctx.int('x0') if ref.infinite else ctx.int('x0', 0, Ls[0] - 1)]
     x += [ctx.int(f'x{a}', 0, Ls[a] - 1) for a in range(1, dim)]
     u = ctx.int('u', 0, ref.Lu - 1)
-    j_exp = Lt.own_mps_index(ctx, ref, x, u)
+    j_exp = Lt.own_lat2mps(ctx, ref, x, u)
     if j_exp is None:
         ctx.note('nonexistent_site')
         ctx.prove(ref.irregular, 'only irregular lattices have holes')
@@ -208,26 +224,21 @@ def values_case(ctx, cfg):
 # (3) couplings
 
 
-def _sym_dx(ctx, ref, prefix='dx', bound=None, unbounded=True):
-    """displacement: unbounded symbolic integer along periodic directions (if `unbounded`), bounded selector otherwise"""
+def _sym_dx(ctx, ref, prefix='dx', bound=None, unbounded=(0, ), full_tilt=False):
+    """displacement: UNBOUNDED symbolic integer along the periodic directions listed in `unbounded`, bounded selector
+    (|dx_a| <= L_a along open, <= L_a + 1 along periodic directions) otherwise"""
     dx = []
     for a in range(ref.dim):
-        if ref.open[a] or not unbounded:
+        if ref.open[a] or a not in unbounded:
             b = ref.Ls[a] + (0 if ref.open[a] else 1)
+            if a == 0 and ref.open[0] and ref.shift is not None and not full_tilt:
+                b -= 1  # |dx0| == Ls[0] on a finite tilted cylinder: separate case `tilt_full_length`
             if bound is not None:
                 b = min(bound, b)
             dx.append(ctx.choice(f'{prefix}{a}', 2 * b + 1) - b)
         else:
-            dx.append(ctx.int(f'{prefix}{a}'))  # unbounded along periodic directions
+            dx.append(ctx.int(f'{prefix}{a}'))
     return dx
-
-
-def _in_unit_cell(ctx, idx, n):
-    """0 <= min(idx) < n as a formula"""
-    alts = []
-    for k, v in enumerate(idx):
-        alts.append(ctx.And(*([v <= w for w in idx] + [v >= 0, v < n])))
-    return ctx.Or(*alts)
 
 
 def _strength(ctx, shape, free=2):
@@ -238,36 +249,48 @@ def _strength(ctx, shape, free=2):
     return st
 
 
-def couplings_case(ctx, cfg, strength=False):
-    # with strengths the lattice indices index the (symbolic) strength array: they have to stay concrete
-    lat, ref = _setup(ctx, cfg, sym=not strength)
-    u1 = ctx.choice('u1', ref.Lu)
-    u2 = ctx.choice('u2', ref.Lu)
-    dx = _sym_dx(ctx, ref, unbounded=not strength)
+def _strip(ref, rows, n_idx, tilt_too=False):
+    """the strength index of a coupling has no meaning for helical lattices (strengths must be translation invariant);
+    for multi-couplings on tilted lattices it depends on which winding of the box is taken as its position"""
+    return [r[:n_idx] for r in rows] if (ref.helical or (tilt_too and ref.shift is not None)) else rows
+
+
+def _u_pairs(Lu):
+    return sorted({(0, 0), (0, Lu - 1), (Lu - 1, 0), (Lu - 1, Lu - 1), (Lu // 2, 0)})
+
+
+def couplings_case(ctx, cfg, unbounded=(0, ), full_tilt=False):
+    """possible_couplings(u1, u2, dx) for ALL dx along the unbounded directions and all (u1, u2) (looped inside the
+    path: the case split over dx is shared by all pairs)"""
+    lat, ref = _setup(ctx, cfg)
+    dx = _sym_dx(ctx, ref, unbounded=tuple(unbounded), full_tilt=full_tilt)
+    if full_tilt:
+        ctx.assume(abs(dx[0]) == ref.Ls[0])
     dxv = Lt.ivec(ctx, dx)
-    exp_rows, exp_shape = Lt.spec_couplings(ctx, ref, u1, u2, dx)
-    ctx.note(f'couplings_{len(exp_rows)}')
-    n_cell = ref.Nh if ref.helical else ref.N
     cs, sh = lat.coupling_shape(dxv)
+    exp_shape = Lt.spec_coupling_shape(ref, [[0] * ref.dim, dx])
     ctx.prove_eq(list(cs), exp_shape, 'coupling_shape == Ls - |dx| along open directions, Ls along periodic ones')
     ctx.prove_eq(_ilist(sh), [Lt._min0(d) for d in dx], 'coupling_shape: shift == min(0, dx)')
-    if not strength:
+    for u1, u2 in itertools.product(range(ref.Lu), repeat=2):
+        exp_rows, _ = Lt.spec_couplings(ctx, ref, u1, u2, dx)
+        ctx.note(f'couplings_{min(len(exp_rows), 4)}{"+" if len(exp_rows) > 4 else ""}')
         mi, mj, li, cs2 = lat.possible_couplings(u1, u2, dxv)
         ctx.prove_eq(list(cs2), exp_shape, 'possible_couplings: coupling_shape')
         got = [[mi[k], mj[k]] + list(li[k]) for k in range(len(mi))]
-        Lt.same_multiset(ctx, got, exp_rows, 'possible_couplings')
-        for k in range(len(mi)):
-            if ref.infinite:
-                ctx.prove(_in_unit_cell(ctx, [mi[k], mj[k]], n_cell), 'possible_couplings: 0 <= min(i, j) < N_sites')
-            else:
-                ctx.prove((mi[k] >= 0) & (mi[k] < ref.N) & (mj[k] >= 0) & (mj[k] < ref.N), 'possible_couplings: indices inside the finite system')
-            for a in range(ref.dim):
-                ctx.prove((li[k][a] >= 0) & (li[k][a] < exp_shape[a]), 'possible_couplings: lat_indices inside coupling_shape')
-        return
-    if any(s <= 0 for s in exp_shape):
-        st = ctx.array('s', (1, ) * ref.dim)
-    elif ref.helical:
-        st = ctx.array('s', (1, ) * ref.dim)  # the helical lattice needs translation invariant strengths
+        Lt.same_multiset(ctx, _strip(ref, got, 2), _strip(ref, exp_rows, 2), 'possible_couplings')
+
+
+def couplings_strength_case(ctx, cfg):
+    """possible_couplings(u1, u2, dx, strength): symbolic strengths (at most two of them may vanish), bounded dx.
+    The lattice indices index the strength array, so they stay concrete here."""
+    lat, ref = _setup(ctx, cfg, sym=False)
+    up = _u_pairs(ref.Lu)
+    u1, u2 = up[ctx.choice('u', len(up))]
+    dx = _sym_dx(ctx, ref, unbounded=())
+    dxv = Lt.ivec(ctx, dx)
+    exp_rows, exp_shape = Lt.spec_couplings(ctx, ref, u1, u2, dx)
+    if any(s <= 0 for s in exp_shape) or ref.helical:
+        st = ctx.array('s', (1, ) * ref.dim)  # (the helical lattice needs translation invariant strengths)
     else:
         st = _strength(ctx, exp_shape)
     mi, mj, sv = lat.possible_couplings(u1, u2, dxv, st)
@@ -277,19 +300,36 @@ def couplings_case(ctx, cfg, strength=False):
         if bool(s != 0):
             exp.append([r[0], r[1], s])
     got = [[mi[k], mj[k], sv[k]] for k in range(len(mi))]
-    ctx.note(f'nonzero_{len(exp)}_of_{len(exp_rows)}')
+    ctx.note(f'nonzero_{min(len(exp), 4)}_of_{min(len(exp_rows), 4)}')
     Lt.same_multiset(ctx, got, exp, 'possible_couplings(strength)')
 
 
-_THIRD = {1: [[1], [-1], [2]], 2: [[0, 1], [1, 0], [-1, 1], [1, 1]]}
+_THIRD = {1: [[1], [-1], [2]], 2: [[0, 1], [1, 0], [-1, 1]]}
 
 
-def multi_case(ctx, cfg, strength=False, exceed=False):
+def _u_triples(Lu):
+    """unit-cell indices of the three operators: all equal, all different where possible, mixed"""
+    t = [(0, 0, 0)]
+    if Lu > 1:
+        t += [(0, 1, 0), (1, 0, 1), (Lu - 1, Lu - 1, 0)]
+    if Lu > 2:
+        t += [(0, 1, 2), (2, 0, 1)]
+    return t
+
+
+def multi_case(ctx, cfg, strength=False, exceed=False, unbounded=(0, )):
     lat, ref = _setup(ctx, cfg, sym=not strength)
-    u = [ctx.choice(f'u{k}', ref.Lu) for k in range(3)]
-    d1 = _sym_dx(ctx, ref, 'd', bound=1 if ref.dim > 1 else 2, unbounded=not strength)
+    tr = _u_triples(ref.Lu)
+    d1 = _sym_dx(ctx, ref, 'd', bound=1 if ref.dim > 1 else 2, unbounded=() if strength else tuple(unbounded))
     third = _THIRD[ref.dim]
     d2 = third[ctx.choice('third', len(third))]
+    if strength:
+        tr = [tr[ctx.choice('u', len(tr))]]  # the zero / non-zero forks of the strengths would multiply over the triples
+    for u in tr:
+        _multi_one(ctx, lat, ref, u, d1, d2, strength, exceed)
+
+
+def _multi_one(ctx, lat, ref, u, d1, d2, strength, exceed):
     ops_spec = [([0] * ref.dim, u[0]), (d1, u[1]), (d2, u[2])]
     ops = [('A', Lt.ivec(ctx, d), uu) for d, uu in ops_spec]
     exp_rows, exp_shape = Lt.spec_multi_couplings(ctx, ref, ops_spec)
@@ -304,23 +344,18 @@ def multi_case(ctx, cfg, strength=False, exceed=False):
         except ValueError as e:
             ctx.fail('possible_multi_couplings with a box larger than an open direction returns no couplings', str(e)[:80])
         return
-    ctx.note(f'multi_{len(exp_rows)}')
-    n_cell = ref.Nh if ref.helical else ref.N
+    ctx.note(f'multi_{min(len(exp_rows), 4)}{"+" if len(exp_rows) > 4 else ""}')
     dxa = np.array([o[1] for o in ops], dtype=object if ctx.symbolic else np.intp)
     cs, sh = lat.multi_coupling_shape(dxa)
     ctx.prove_eq(list(cs), exp_shape, 'multi_coupling_shape == Ls - (max dx - min dx) along open directions')
     if not strength:
-        res = lat.possible_multi_couplings(ops)
-        mijk, li, cs2 = res
+        mijk, li, cs2 = lat.possible_multi_couplings(ops)
         ctx.prove_eq(list(cs2), exp_shape, 'possible_multi_couplings: coupling_shape')
         got = [list(mijk[k]) + list(li[k]) for k in range(len(mijk))]
-        Lt.same_multiset(ctx, got, exp_rows, 'possible_multi_couplings')
-        for k in range(len(mijk)):
-            if ref.infinite:
-                ctx.prove(_in_unit_cell(ctx, list(mijk[k]), n_cell), 'possible_multi_couplings: 0 <= min(i,j,k) < N_sites')
+        Lt.same_multiset(ctx, _strip(ref, got, 3, True), _strip(ref, exp_rows, 3, True), 'possible_multi_couplings')
         return
-    if any(s <= 0 for s in exp_shape) or ref.helical:
-        st = ctx.array('s', (1, ) * ref.dim)
+    if any(s <= 0 for s in exp_shape) or ref.helical or ref.shift is not None:
+        st = ctx.array('s', (1, ) * ref.dim)  # uniform (tilted lattices: see _strip)
     else:
         st = _strength(ctx, exp_shape)
     mijk, sv = lat.possible_multi_couplings(ops, st)
@@ -333,27 +368,30 @@ def multi_case(ctx, cfg, strength=False, exceed=False):
     Lt.same_multiset(ctx, got, exp, 'possible_multi_couplings(strength)')
 
 
-def two_vs_multi_case(ctx, cfg):
-    """possible_couplings(u1, u2, dx) and possible_multi_couplings([(A, 0, u1), (B, dx, u2)]) enumerate the same couplings"""
+def two_vs_multi_case(ctx, cfg, unbounded=(0, )):
+    """possible_couplings(u1, u2, dx) and possible_multi_couplings([(A, 0, u1), (B, dx, u2)]) enumerate the same couplings
+    (with tilted boundaries the two functions attach a coupling to different strength entries: only the MPS indices
+    are compared there)"""
     lat, ref = _setup(ctx, cfg)
-    u1 = ctx.choice('u1', ref.Lu)
-    u2 = ctx.choice('u2', ref.Lu)
-    dx = _sym_dx(ctx, ref)
+    dx = _sym_dx(ctx, ref, unbounded=tuple(unbounded))
     dxv = Lt.ivec(ctx, dx)
-    mi, mj, li, cs = lat.possible_couplings(u1, u2, dxv)
-    mij, li2, cs2 = lat.possible_multi_couplings([('A', Lt.ivec(ctx, [0] * ref.dim), u1), ('B', dxv, u2)])
-    ctx.prove_eq(list(cs), list(cs2), 'two-site vs multi: coupling_shape')
-    a = [[mi[k], mj[k]] + list(li[k]) for k in range(len(mi))]
-    b = [list(mij[k]) + list(li2[k]) for k in range(len(mij))]
-    Lt.same_multiset(ctx, b, a, 'two-site vs multi')
+    for u1, u2 in _u_pairs(ref.Lu):
+        mi, mj, li, cs = lat.possible_couplings(u1, u2, dxv)
+        mij, li2, cs2 = lat.possible_multi_couplings([('A', Lt.ivec(ctx, [0] * ref.dim), u1), ('B', dxv, u2)])
+        ctx.prove_eq(list(cs), list(cs2), 'two-site vs multi: coupling_shape')
+        a = [[mi[k], mj[k]] + list(li[k]) for k in range(len(mi))]
+        b = [list(mij[k]) + list(li2[k]) for k in range(len(mij))]
+        if ref.shift is not None or ref.helical:
+            a, b = [r[:2] for r in a], [r[:2] for r in b]
+        Lt.same_multiset(ctx, b, a, 'two-site vs multi')
 
 
 def consumer_case(ctx, cfg):
     """CouplingModel.add_coupling puts strength[corner] * op1_i op2_j on exactly the specified pairs"""
     from tenpy.models.model import CouplingModel
     lat, ref = _setup(ctx, cfg, sym=False)
-    u1 = ctx.choice('u1', ref.Lu)
-    u2 = ctx.choice('u2', ref.Lu)
+    up = _u_pairs(ref.Lu)
+    u1, u2 = up[ctx.choice('u', len(up))]
     dx = [ctx.choice(f'dx{a}', 2 * ref.Ls[a] + 1) - ref.Ls[a] for a in range(ref.dim)]
     exp_rows, exp_shape = Lt.spec_couplings(ctx, ref, u1, u2, dx)
     M = CouplingModel(lat)
@@ -506,16 +544,13 @@ def _bcs(dim, bc_MPS):
 
 
 def configurations(tier):
-    """(cfg, weight) list; weight 'full' = all sub-checks, 'light' = index maps + couplings without strengths"""
     out = []
-    sizes = {
-        'Chain': [[3], [4]] if tier == 'quick' else [[2], [3], [4], [5]],
-        'Ladder': [[3]] if tier == 'quick' else [[2], [3], [4]],
-        'Square': [[2, 3], [3, 3]] if tier == 'quick' else [[2, 3], [3, 2], [3, 3], [4, 4]],
-        'Triangular': [[3, 2]] if tier == 'quick' else [[3, 2], [3, 3], [4, 3]],
-        'Honeycomb': [[2, 3]] if tier == 'quick' else [[2, 3], [3, 3], [4, 2]],
-        'Kagome': [[2, 2]] if tier == 'quick' else [[2, 2], [3, 2], [2, 3]],
-    }
+    if tier == 'quick':
+        sizes = {'Chain': [[3], [4]], 'Ladder': [[3]], 'Square': [[2, 3], [3, 3]], 'Triangular': [[3, 2]], 'Honeycomb': [[2, 2]],
+                 'Kagome': [[2, 2]]}
+    else:
+        sizes = {'Chain': [[3], [2], [4], [5]], 'Ladder': [[3], [2], [4]], 'Square': [[2, 3], [3, 2], [3, 3], [4, 4]],
+                 'Triangular': [[3, 2], [3, 3], [4, 3]], 'Honeycomb': [[2, 2], [2, 3], [3, 3]], 'Kagome': [[2, 2], [3, 2]]}
     for cls, szs in sizes.items():
         dim = len(szs[0])
         for Ls in szs:
@@ -524,12 +559,22 @@ def configurations(tier):
                 for bc in _bcs(dim, bc_MPS):
                     for order in ORDERS[cls]:
                         default = order == 'default'
+                        plain = bc in (['open'], ['periodic'], ['open', 'open'], ['periodic', 'periodic'], ['periodic', -1])
                         if tier == 'quick':
-                            # all boundary conditions with the default order; all orders with two boundary conditions
-                            plain = bc in (['open'], ['periodic'], ['open', 'open'], ['periodic', 'periodic'], ['periodic', -1])
-                            if not default and not (first and plain):
+                            # every boundary condition with the default order (first size); every order with the plain
+                            # boundary conditions; the larger size only with default order and plain boundary conditions
+                            if not first and not (default and plain):
                                 continue
-                            if not default and bc_MPS == 'finite' and bc[0] == 'periodic' and dim == 2:
+                            if not default and not plain:
+                                continue
+                            if not default and bc_MPS == 'finite' and bc[0] == 'periodic':
+                                continue
+                        else:
+                            # full cross product of orders and boundary conditions for the first size of every class;
+                            # larger sizes: every boundary condition with the default order, every order with the plain ones
+                            if not first and not default and not plain:
+                                continue
+                            if Ls == szs[-1] and len(szs) > 2 and not (default and plain):
                                 continue
                         out.append(_cfg(cls, Ls, order, bc, bc_MPS))
     return out
@@ -567,31 +612,48 @@ def CASES(tier, seed):
     import tenpy.models.lattice  # noqa: imported in the parent, the forked case workers inherit it
     import tenpy.models.model  # noqa
     cases = []
-    O = dict(max_paths=200000, max_wall_s=200 if tier == 'quick' else 1500, validate_paths=2,
+    O = dict(max_paths=200000, max_wall_s=200 if tier == 'quick' else 1500, validate_paths=1,
              hard_timeout_s=230 if tier == 'quick' else 1700)
     cfgs = configurations(tier)
     wr = wrapped_configurations(tier)
+    unb = [0] if tier == 'quick' else [0, 1]  # directions along which displacements are unbounded symbolic integers
+    first_size = {}
+    for c in cfgs:
+        first_size.setdefault(c['cls'], c['Ls'])
+
+    def add(kind, fn, c, **params):
+        cases.append(dict(name=f'{kind}[{_name(c)}]', fn=fn, params=dict(cfg=c, **params), opts=O))
+
     for c in cfgs + wr:
-        nm = _name(c)
-        default = c['order'] == 'default' or bool(c.get('wrap'))
-        cases.append(dict(name=f'idx[{nm}]', fn='idx_case', params=dict(cfg=c), opts=O))
-        cases.append(dict(name=f'couplings[{nm}]', fn='couplings_case', params=dict(cfg=c), opts=O))
+        kind = (c.get('wrap') or {}).get('kind')
+        default = c['order'] == 'default' or bool(kind)
+        add('idx', 'idx_case', c)
+        add('latidx', 'latidx_case', c)
+        add('couplings', 'couplings_case', c, unbounded=unb)
+        tilted_open = c['bc_MPS'] == 'finite' and c['bc'][0] == 'open' and any(isinstance(b, int) for b in c['bc'])
         if default:
-            cases.append(dict(name=f'idx_array[{nm}]', fn='idx_array_case', params=dict(cfg=c), opts=O))
-            cases.append(dict(name=f'values[{nm}]', fn='values_case', params=dict(cfg=c), opts=O))
-            cases.append(dict(name=f'couplings_strength[{nm}]', fn='couplings_case', params=dict(cfg=c, strength=True), opts=O))
-            cases.append(dict(name=f'multi[{nm}]', fn='multi_case', params=dict(cfg=c), opts=O))
-    # strengths of multi couplings, two-site vs multi, model-level consumer: selected configurations
+            add('idx_array', 'idx_array_case', c)
+            add('values', 'values_case', c)
+            small = int(np.prod(c['Ls'])) <= 9
+            if kind or c['Ls'] == first_size[c['cls']] or (tier == 'thorough' and small):
+                add('multi', 'multi_case', c, unbounded=[0])
+            if kind or tilted_open or (tier == 'thorough' and c['Ls'] == first_size[c['cls']]):
+                add('two_vs_multi', 'two_vs_multi_case', c, unbounded=[0])
+        if tilted_open and default:
+            add('tilt_full_length', 'couplings_case', c, unbounded=[], full_tilt=True)
+    # strengths and the model-level consumer: selected configurations (bounded displacements)
     sel = [c for c in cfgs if c['order'] == 'default' and c['Ls'] in ([3], [2, 3], [3, 2], [2, 2])
            and c['bc'] in (['open'], ['periodic'], ['open', 'periodic'], ['periodic', 'open'], ['periodic', 1])]
     for c in sel + wr:
-        nm = _name(c)
-        cases.append(dict(name=f'multi_strength[{nm}]', fn='multi_case', params=dict(cfg=c, strength=True), opts=O))
-        cases.append(dict(name=f'two_vs_multi[{nm}]', fn='two_vs_multi_case', params=dict(cfg=c), opts=O))
-        if (c.get('wrap') or {}).get('kind') != 'helical':
-            cases.append(dict(name=f'add_coupling[{nm}]', fn='consumer_case', params=dict(cfg=c), opts=O))
+        kind = (c.get('wrap') or {}).get('kind')
+        if tier == 'quick' and not kind:
+            add('two_vs_multi', 'two_vs_multi_case', c, unbounded=[0])
+        add('couplings_strength', 'couplings_strength_case', c)
+        add('multi_strength', 'multi_case', c, strength=True)
+        if kind != 'helical':
+            add('add_coupling', 'consumer_case', c)
         if c['bc'] == ['open'] and c['Ls'][0] <= 3:
-            cases.append(dict(name=f'multi_exceed[{nm}]', fn='multi_case', params=dict(cfg=c, exceed=True), opts=O))
+            add('multi_exceed', 'multi_case', c, exceed=True)
     # (4) plain enumeration
     seen = set()
     for c in cfgs + wr:
